@@ -27,6 +27,7 @@ import (
 	"time"
 
 	"verifmc/internal/ev"
+	"verifmc/internal/nohb"
 	"verifmc/internal/xgen"
 )
 
@@ -104,6 +105,10 @@ func (p *parent) addViolation(sig string, w witness, n int64) {
 }
 
 func main() {
+	if nohb.IsWorker() {
+		nohb.WorkerMain(reentrantOps(), repoDir())
+		return
+	}
 	if os.Getenv("C01_WORKER") != "" {
 		workerMain()
 		return
@@ -348,6 +353,7 @@ func run(c *ev.Ctx) {
 		n++
 		return true
 	})
+	reentrantPhase(c, p.workdir, units, cp)
 }
 
 func max64(a, b int64) int64 {
